@@ -400,7 +400,9 @@ Definition intcls_eqb (a b : intcls) := match a, b with CInt, CInt | CIs, CIs | 
 Definition numcls_eqb (a b : numcls) := match a, b with CFloat, CFloat | CDs, CDs => true | _, _ => false end.
 Definition listcls_eqb (a b : listcls) := match a, b with CList, CList | CMulti, CMulti => true | _, _ => false end.
 
-(** [VSeq] never occurs in results; two [VSeq] compare unequal on purpose. *)
+(** [VSeq] never occurs in results; two [VSeq] compare unequal on purpose.  Dictionaries are compared as MAPS
+    (the property does not speak of key order): same number of entries and every entry of the first found in the
+    second; keys are unique on both sides (Python dicts / [dset]). *)
 Fixpoint val_eqb (a b : val) {struct a} : bool :=
   match a, b with
   | VNone, VNone => true
@@ -417,19 +419,19 @@ Fixpoint val_eqb (a b : val) {struct a} : bool :=
          | _, _ => false
          end) xs ys
   | VDict xs, VDict ys =>
-      (fix go (xs ys : list (str * val)) {struct xs} : bool :=
-         match xs, ys with
-         | [], [] => true
-         | (k, x) :: xs', (k', y) :: ys' => str_eqb k k' && val_eqb x y && go xs' ys'
-         | _, _ => false
-         end) xs ys
+      Nat.eqb (length xs) (length ys) &&
+      (fix go (xs : list (str * val)) {struct xs} : bool :=
+         match xs with
+         | [] => true
+         | (k, x) :: xs' =>
+             (fix find (ys : list (str * val)) : bool :=
+                match ys with
+                | [] => false
+                | (k', y) :: ys' => if str_eqb k k' then val_eqb x y else find ys'
+                end) ys && go xs'
+         end) xs
   | VOpaque t r, VOpaque t' r' => str_eqb t t' && str_eqb r r'
   | _, _ => false
   end.
 
-Fixpoint dict_eqb (a b : dict) : bool :=
-  match a, b with
-  | [], [] => true
-  | (k, x) :: a', (k', y) :: b' => str_eqb k k' && val_eqb x y && dict_eqb a' b'
-  | _, _ => false
-  end.
+Definition dict_eqb (a b : dict) : bool := val_eqb (VDict a) (VDict b).
